@@ -168,6 +168,10 @@ func RunWorker(t *testing.T) {
 		shrinkMode(t, &job)
 	case "enum":
 		enumMode(t, &job)
+	case "one":
+		oneMode(t, &job)
+	case "gen":
+		writeJSON(job.Out, map[string]any{"scenario": Gen(job.Profiles[0], job.SeedBase, job.Thorough)})
 	default:
 		exploreMode(t, &job)
 	}
@@ -186,6 +190,11 @@ func (o *WorkerOut) absorb(r *Run, jd *Judged, prop string, sigs map[string]bool
 	o.StoreOps += len(r.Store)
 	o.OriginCalls += len(r.Calls)
 	o.Backends[r.Scn.Backend]++
+	o.Inconclusive += r.Inconclusive
+	o.StoreOps += len(r.SHists)
+	if r.Crashes > 0 {
+		o.Faults["process.kill"] += r.Crashes
+	}
 	if r.Deadlock != "" {
 		o.Deadlocks++
 	}
@@ -331,4 +340,23 @@ func replayMode(t *testing.T, job *Job) {
 	}
 	res["event_log"] = trace
 	writeJSON(job.Out, res)
+}
+
+// oneMode: run a single generated scenario and print everything (debugging aid).
+func oneMode(t *testing.T, job *Job) {
+	seed := mix(job.SeedBase, uint64(job.Start))
+	if job.Stride < 0 {
+		seed = job.SeedBase
+	}
+	scn := Gen(job.Profiles[0], seed, job.Thorough)
+	r, jd := Exec(t, scn)
+	b, _ := json.MarshalIndent(scn, "", " ")
+	fmt.Println(string(b))
+	for _, e := range r.Sim.Log {
+		fmt.Println(e.String())
+	}
+	fmt.Println("digest", r.Sim.Digest(), "steps", r.Sim.Steps, "ambiguous", r.Sim.Ambiguous, "hung", r.Sim.Hung, "faults", r.Faults)
+	for _, v := range jd.Violations {
+		fmt.Printf("VIOL %s %s seq=%d c%d op%d: %s\n", v.Prop, v.Sig, v.Seq, v.Client+1, v.Op, v.Msg)
+	}
 }
